@@ -2,6 +2,7 @@ SPECIFICATION LSpec
 CONSTANTS
   MaxPieces = 2
   MaxPhrase = 3
+  MaxTmpl = 0
   Hosts = {"out", "include"}
   EmitAll = TRUE
 INVARIANTS Emit
